@@ -36,17 +36,19 @@ PROPERTIES["C12"] = {
     "explanation": "C12: kfold_splitter_t::split, random_splitter_t::split, sample_without_replacement, sample_with_replacement executed symbolically from their bitcode (std::shuffle, Eigen segment copies, std::sort, tensor storage as compiled).",
     "assumptions": SBV_ASSUME + ["contract: std::uniform_int_distribution<T>::operator()(rng, param) returns an arbitrary value of [param.a, param.b] (replaces the pseudo-random engine: 'any seed' becomes 'any draw sequence')",
                                  "sample indices: distinct symbolic int64 in [0, 10^6], given in arbitrary order (ordered=0) or increasing order"],
-    "bounds": {"n": "3..6 samples", "folds": "2..3", "train percentage": "10..90", "count": "<= n"},
+    "bounds": {"n": "3..6 samples with symbolic indices and arbitrary draws; size clause of the random splitter: n in {7,20,25,40} (quick) / every n in 2..40 (thorough) with EVERY train percentage 10..90 symbolic", "folds": "2..3", "count": "<= n"},
     "outside": ["'equal seeds give equal splits' (the random engine is replaced by the contract; determinism of minstd_rand is not examined)",
                 "weighted sampling (std::discrete_distribution on doubles) and points sampled from a ball (floating point): not covered by this engine",
                 "gboost::sampler_t", "n > 6"],
     "units": [
         {"engine": "sbv", "harness": "C12_split", "sources": ["C12_split.cpp"],
          "quick": ["mode=kfold;n=4;folds=2", "mode=kfold;n=5;folds=2", "mode=kfold;n=3;folds=3", "mode=kfold;n=4;folds=3;ordered=1", "mode=random;n=4;folds=2;perc=80",
-                   "mode=random;n=3;folds=2;perc=10", "mode=without;n=4;count=2", "mode=without;n=4;count=4", "mode=without;n=4;count=0", "mode=with;n=3;count=3", "mode=with;n=4;count=2"],
+                   "mode=random;n=3;folds=2;perc=10", "mode=without;n=4;count=2", "mode=without;n=4;count=4", "mode=without;n=4;count=0", "mode=with;n=3;count=3", "mode=with;n=4;count=2",
+                   "mode=randsize;n=7;folds=2", "mode=randsize;n=20;folds=2", "mode=randsize;n=25;folds=2", "mode=randsize;n=40;folds=2"],
          "thorough": ["mode=kfold;n=%d;folds=%d;ordered=%d" % (n, f, o) for (n, f) in ((3, 2), (3, 3), (4, 2), (4, 3), (5, 2), (5, 3), (6, 2), (6, 3)) for o in (0, 1)] +
                      ["mode=random;n=%d;folds=%d;perc=%d" % (n, f, p) for (n, f, p) in ((4, 2, 80), (5, 2, 50), (3, 2, 10), (5, 2, 90), (6, 2, 75), (5, 3, 10))] +
-                     ["mode=without;n=%d;count=%d" % (n, c) for (n, c) in ((4, 2), (5, 5), (4, 0), (6, 3), (5, 1))] + ["mode=with;n=%d;count=%d" % (n, c) for (n, c) in ((3, 3), (4, 2), (2, 5), (5, 3))],
+                     ["mode=without;n=%d;count=%d" % (n, c) for (n, c) in ((4, 2), (5, 5), (4, 0), (6, 3), (5, 1))] + ["mode=with;n=%d;count=%d" % (n, c) for (n, c) in ((3, 3), (4, 2), (2, 5), (5, 3))] +
+                     ["mode=randsize;n=%d;folds=2" % n for n in range(2, 41)],
          "budget": {"quick": {"deadline_s": 150, "max_paths": 20000, "query_s": 20}, "thorough": {"deadline_s": 1500, "max_paths": 400000, "query_s": 60}},
          "encoded": ["nano::kfold_splitter_t::split", "nano::random_splitter_t::split", "nano::sample_without_replacement", "nano::sample_with_replacement", "nano::idiv", "nano::make_rng",
                      "std::shuffle<long*, std::minstd_rand> (libstdc++, incl. the two-draws-at-once path)", "std::sort / std::__insertion_sort instantiations on long*", "nano::tensor_t storage / Eigen segment assignment",
@@ -287,18 +289,28 @@ _C16_H = [{"func": "h_offset4", "unwind": 8, "desc": "rank-4 offset: in range, r
           {"func": "h_integral3", "unwind": 10, "desc": "summed-area table rank 3 (2x2x2), uint8 -> int64"}]
 PROPERTIES["C16"] = {
     "level": "model_checking",
-    "level_text": "bounded model checking of the lifted real code: for ALL dimensions in 0..6 (rank<=4) and all index tuples, prefixes, slices and reshape factorisations (bit-vector symbolic), offsets are the row-major bijection, views/slices/reshapes alias exactly the elements of full indexing; summed-area tables equal naive prefix sums for all byte contents incl. narrow->wide scalar types",
-    "level_note": LIFT_NOTE,
-    "technique": LIFT_TECH,
+    "level_text": "bounded model checking of the lifted real code: for ALL dimensions in 0..6 (rank<=4) and all index tuples, prefixes, slices and reshape factorisations (bit-vector symbolic), offsets are the row-major bijection, views/slices/reshapes alias exactly the elements of full indexing; summed-area tables equal naive prefix sums for all byte contents incl. narrow->wide scalar types. SBV unit (bounded symbolic execution of the real headers incl. allocation): index gathers, remove_if, stack, storage conversions and rank-5 views on concrete shapes with symbolic contents, indices, flags and slice bounds",
+    "level_note": LIFT_NOTE + "; " + SBV_NOTE,
+    "technique": LIFT_TECH + "; allocating algorithms and rank 5 by " + SBV_TECH,
     "explanation": "C16: tensor index arithmetic and views lifted from include/nano/tensor/*.h through extern-C shims; CBMC decides every assertion for all symbolic dims/indices.",
     "assumptions": ["dims bounded by 6 (rank 4 views: 5)", "buffers owned by the driver (tensor maps, no allocation)", "reshape precondition: the product of the given dims divides / equals the size"],
     "bounds": {"rank": "1..4", "dims": "0..6", "integral shapes": "<= 5, <= 2x3, 2x2x2", "idiv": "n <= 255, d <= 16", "unwind": "4..11 with unwinding assertions"},
-    "outside": ["rank 5", "index gathers (indexed), remove_if, stack and owning-storage conversions (allocating code: not lifted)", "dims > 6"],
+    "outside": ["dims > 6 (LIFT-C unit); the SBV unit (index gathers, remove_if, stack, storage conversions, rank 5) uses concrete shapes per configuration with symbolic contents and indices", "rank > 5"],
     "units": [
         {"engine": "lift", "name": "C16_tensor", "shim": "C16_shim.cpp", "driver": "C16_drv.c", "roots": _C16_ROOTS,
          "quick": _C16_H, "thorough": _C16_H,
          "encoded": ["nano::index<1..4>", "nano::size(dims)", "tensor_t::operator()", "tensor_t::tensor/vector/matrix(indices...)", "tensor_t::reshape (detail::reshape with -1)", "tensor_t::slice",
                      "nano::idiv", "nano::iround", "nano::integral / integral_t<1..3>::get"]},
+        {"engine": "sbv", "harness": "C16_alloc", "sources": ["C16_alloc.cpp"],
+         "quick": ["mode=indexed;rank=1;d0=3;k=3", "mode=indexed;rank=2;d0=3;d1=2;k=3", "mode=indexed;rank=3;d0=3;d1=2;d2=2;k=2", "mode=indexed;rank=2;d0=4;d1=1;k=0", "mode=removeif;n=4;d1=2", "mode=removeif;n=5;d1=1",
+                   "mode=stack", "mode=stack;r1=1;r2=2;c1=3;c2=2", "mode=storage", "mode=storage;d0=1;d1=4", "mode=rank5", "mode=rank5;d0=1;d1=2;d2=3;d3=1;d4=2", "mode=rank5;d0=3;d1=1;d2=1;d3=3;d4=1"],
+         "thorough": ["mode=indexed;rank=%d;d0=%d;d1=%d;d2=2;k=%d" % (r, a, b, k) for r in (1, 2, 3) for (a, b, k) in ((3, 2, 3), (4, 3, 2), (2, 1, 4), (4, 1, 0))] +
+                     ["mode=removeif;n=%d;d1=%d" % (n, d) for (n, d) in ((4, 2), (5, 1), (6, 2), (1, 1), (7, 1))] +
+                     ["mode=stack;r1=%d;r2=%d;c1=%d;c2=%d" % t for t in ((2, 1, 2, 1), (1, 2, 3, 2), (3, 3, 1, 1), (1, 1, 1, 4))] + ["mode=storage;d0=%d;d1=%d" % t for t in ((2, 3), (1, 4), (3, 3))] +
+                     ["mode=rank5;d0=%d;d1=%d;d2=%d;d3=%d;d4=%d" % t for t in ((2, 3, 2, 2, 3), (1, 2, 3, 1, 2), (3, 1, 1, 3, 1), (2, 2, 2, 2, 2), (4, 1, 2, 1, 3), (1, 1, 1, 1, 1))],
+         "budget": {"quick": {"deadline_s": 100, "max_paths": 20000, "query_s": 20}, "thorough": {"deadline_s": 900, "max_paths": 200000, "query_s": 60}},
+         "encoded": ["tensor_t::indexed (rank 1-3, with scalar conversion)", "nano::remove_if(op, tensors...)", "nano::stack<scalar>(rows, cols, blocks...) / stack<scalar>(rows, segments...)",
+                     "tensor_vector_storage_t / tensor_marray_storage_t / tensor_carray_storage_t conversions, copy and move", "nano::index<5>, tensor_t<.., 5>::operator(), tensor(i0,i1), vector(i0..i3), matrix(i0,i1,i2), slice, reshape(-1)"]},
     ],
 }
 
